@@ -89,8 +89,20 @@ func protoName(p *proto.Protocol) string {
 	return ""
 }
 
+// number of match criteria present in a rule (everything except the action and the generated rule id)
+func nmatch(r *proto.Rule) int {
+	var v map[string]any
+	if err := json.Unmarshal([]byte(raw(r)), &v); err != nil {
+		panic(err)
+	}
+	delete(v, "action")
+	delete(v, "rule_id")
+	return len(v)
+}
+
 func rule(r *proto.Rule) map[string]any {
 	return map[string]any{
+		"nmatch": nmatch(r),
 		"action": r.Action,
 		"proto":  protoName(r.Protocol),
 		"src":    ss(r.SrcIpSetIds), "dst": ss(r.DstIpSetIds),
